@@ -49,6 +49,16 @@ SIG_RULE = ('seeded sequences of 25-60 BeginBlocker calls over a pool of 1-40 va
             'near ties around the 5% boundary, random up to 2^30; nearly equal addresses; per step random bonding/unbonding and delegation changes. A case agrees when the current set, the latest set and the nonce match after every step.')
 
 PROPS = {
+    'C14': {'suites': [{'name': 'claim', 'quick': '-n 4000', 'thorough': '-n 60000', 'shards': {'quick': 2, 'thorough': 16}}],
+            'trusted_base': [
+                'model: coq/Ext/ClaimHash.v (type tag + 8-byte length-prefixed fields of each event type; sdk.Int as sign byte + minimal big-endian magnitude; members in Sort() order) is hand-written; '
+                'tied to /repo by comparing, on generated pairs of events, the equality pattern Hash(e1)==Hash(e2) of the real per-type Hash() with equality of the model\'s byte strings '
+                '(single-field mutants of every field and boundary shifts between neighbouring variable-length fields), so no SHA-256 model is needed',
+                'SHA-256 collision resistance is a hypothesis of C14_claim_ids (an arbitrary injective function in the statement)'],
+            'rule': 'pairs (event, mutant) over the five event types: identical copy; one field changed (nonce, height, coin, amount incl. x256 / negation, fee, sender incl. case and 0x prefix, receiver, chain, tx hash, '
+                    'batch nonce, fee paid incl. unset, fee payer, scope, invalidation nonce, return data, set nonce, member power / order / addition / double duplication); '
+                    'boundary shifts (last byte of the coin id into the amount, receiver into chain or sender, scope into return data, tx hash into payer).',
+            'assumptions': ['event nonces, heights and powers are below 2^64 and fields shorter than 2^64 bytes (hypothesis xwf)']},
     'C07': {'gen': ['gen_srcfacts.py'],
             'suites': [{'name': 'ckpt', 'quick': '-n 50', 'thorough': '-n 600', 'shards': {'quick': 2, 'thorough': 16}},
                        {'name': 'sig', 'quick': '-n 600', 'thorough': '-n 6000', 'shards': {'quick': 1, 'thorough': 4}}],
@@ -97,6 +107,9 @@ _HUB_NOTE = ('Trusted: Coq 8.16.1 kernel (vm_compute, no native_compute), extrac
 _VOTES_NOTE = ('Trusted: Coq kernel, extraction + driver, Go harness; the hand-written votes model is tied to /repo by co-execution on the real msg server/EndBlocker; '
                'staking, orchestrator registry and claim hash are inputs.')
 TEXT = {
+    'C14': {'technique': 'Coq injectivity proof of the hashed encoding (framing, fixed-width and minimal big-endian lemmas) + equality-pattern correspondence',
+            'level': 'Theorem: for all admissible events of any two types, equal hashed byte strings imply the same type and equal values of every field (so, with a collision-free SHA-256, events differing in any effect field get different claim ids). The encoding model is tied to the real Hash() by equality patterns over generated mutant pairs.',
+            'note': 'Trusted: Coq kernel, extraction + driver, Go harness; SHA-256 collision resistance assumed.'},
     'C07': {'technique': 'source-to-Coq translators + Coq lemmas over the generated facts + executable ABI/Keccak model co-executed with GetCheckpoint',
             'level': 'Theorems re-checked on every run against definitions generated from the current Hub2.sol and Go sources: same argument types/order/method constants, same argument values for every relayed signer set and batch (all sizes, all amounts) hence equal encodings and digests; hub signature check = contract verifySig for v in {27,28} for any recovery function; same prefix. The encoder+Keccak model is validated against the real GetCheckpoint and ValidateEthereumSignature.',
             'note': 'Trusted: Coq kernel, the translator, extraction + driver, Go harness; ABI spec transcription; contract-call (logic call) value mapping is only type-checked, not value-mapped.'},
